@@ -16,6 +16,10 @@ func propC19(c *Ctx, r *Report) {
 	r.Trusted = []string{"SQLite aggregates", "go/ssa"}
 	cat := buildSQLCat(c)
 
+	r.rule("C19-R6/markers-storable", 1, "the version table accepts the -1 markers of the fork check")
+	ruleSyncVersionAcceptsMarkers(c, r, cat, "C19-R6/markers-storable")
+	r.rule("C19-R7/min-max-agreement", 2, "FetchMin/FetchMaxSyncedVersion return the aggregate they are named after")
+	ruleMinMaxAgreement(c, r, cat, "C19-R7/min-max-agreement")
 	// R1
 	r.rule("C19-R1/version-recorded", 3, "each committed height records the build's sync version")
 	mhs := c.fn("pegnet.Pegnet.MarkHeightSynced")
